@@ -449,6 +449,20 @@ func c19Exec3(r *Run, line string, f []string) string {
 		return Hex([]byte(id))
 	case "bovalid":
 		id := string(unhex(f[1]))
+		// monitor: a valid id without a leading zero in its number is the id the constructor hands out
+		if dymnstypes.IsValidBuyOrderId(id) && id[2] != '0' {
+			n, _ := strconv.ParseUint(id[2:], 10, 64)
+			at := dymnstypes.TypeName
+			if id[:2] == dymnstypes.BuyOrderIdTypeAliasPrefix {
+				at = dymnstypes.TypeAlias
+			}
+			if got := dymnstypes.CreateBuyOrderId(at, n); got != id {
+				r.Violate("C19/buy_order_id/canonical-valid-id-not-created", fmt.Sprintf("%q vs %q", id, got), line)
+			}
+			r.Hit("bovalid-canonical")
+		} else if dymnstypes.IsValidBuyOrderId(id) {
+			r.Hit("bovalid-valid-with-leading-zero(non-canonical, accepted by the validator)")
+		}
 		return fmt.Sprintf("%v %s %s", dymnstypes.IsValidBuyOrderId(id), c19BoClass(id, dymnstypes.TypeName), c19BoClass(id, dymnstypes.TypeAlias))
 	case "irodenom":
 		ra := string(unhex(f[1]))
@@ -877,7 +891,7 @@ func c19Gen3(r *Run, g *Rng, emit func(kind, line string)) {
 var c19Denoms = []string{"adym", "adymx", "adym/", "gamm/pool/1", "gamm/pool/10", "gamm/pool/11", "gamm/pool/2", "ibc/27394FB092D2ECCD56123C74F36E4C1F926001CEADA9CA97EA622B25F41E5EB2", "ibc/27394FB092D2ECCD56123C74F36E4C1F926001CEADA9CA97EA622B25F41E5EB", "a", "ab", "zz~", "zz~~"}
 var c19Durs = []int64{-1 << 63, -1, 0, 1, 255, 256, 1000000000, 3600000000000, 86400000000000, 14 * 86400000000000, 1<<63 - 1, 1 << 32, 65535, 65536}
 
-// c19Owner: address bytes of length 20 or 32 (what the hub's address verifier admits; rarely another
+// c19Owner: address bytes of length 20 or 32 (what the hub's address verifier accepts; rarely another
 // length, which the real builders refuse), pairs sharing long prefixes, bytes 0x00/0xff included
 func c19Owner(g *Rng) []byte {
 	n := []int{20, 20, 20, 20, 32, 32, 32, 20, 32, 20, 32, 20, 32, 1, 21}[g.Intn(15)]
